@@ -370,7 +370,7 @@ fn parse_out(stdout: &[u8]) -> Parsed {
 }
 
 pub fn check_cli(case: &CliCase) -> Verdict {
-    let dir = TempDir::new("c14");
+    let dir = TempDir::fast("c14");
     dir.write("f", &case.input.0);
     let input = &case.input.0;
     let (cmd, out) = run_cli(case, &dir, case.mode);
